@@ -25,7 +25,7 @@
 -/
 import EnvVerif.Lemmas.ObscureLemmas
 namespace EnvVerif
-open Env
+open Env ToyDeps Obs.Ex
 
 section
 variable (h : Hash) (A : Aead)
@@ -39,6 +39,11 @@ theorem encryptSubject_ok_iff (k n : Bytes) (e : Env) (hi : Inv h e) (hH : ∀ b
   rw [Obs.encryptSubject_eq' h A k n hi hH, ← Obs.encryptRefusal_eq_none]
   cases Obs.encryptRefusal e <;> simp
 
+/- the hypotheses are satisfiable (toy hash, toy AEAD, the node `"a" [ 1: "a" ]`), and the
+right-hand side holds: this envelope is encrypted -/
+example : ∃ r, encryptSubject toyHash toyAead [1] [2] nd = .ok r :=
+  (encryptSubject_ok_iff toyHash toyAead [1] [2] nd nd_inv toyHash_valid).mpr ⟨rfl, rfl⟩
+
 /-- the two errors, exactly -/
 theorem encryptSubject_err_iff (k n : Bytes) (e : Env) (x : String) (hi : Inv h e)
     (hH : ∀ b, (h.H b).Valid) :
@@ -48,11 +53,18 @@ theorem encryptSubject_err_iff (k n : Bytes) (e : Env) (x : String) (hi : Inv h 
   rw [Obs.encryptSubject_eq' h A k n hi hH, ← Obs.encryptRefusal_eq_some]
   cases Obs.encryptRefusal e <;> simp
 
+example : encryptSubject toyHash toyAead [1] [2] (.elided ⟨5⟩) = .err "AlreadyElided" :=
+  (encryptSubject_err_iff toyHash toyAead [1] [2] (.elided ⟨5⟩) _
+    ⟨trivial, by simp [Canon, Digest.Valid]⟩ toyHash_valid).mpr (Or.inr ⟨rfl, rfl⟩)
+
 /-- no panic: neither `new_with_encrypted(..).unwrap()` nor the closing `assert_eq!` fires -/
-theorem encryptSubject_no_panic (k n : Bytes) (e : Env) (hi : Inv h e) (hH : ∀ b, (h.H b).Valid)
+theorem encryptSubject_never_panics (k n : Bytes) (e : Env) (hi : Inv h e) (hH : ∀ b, (h.H b).Valid)
     (s : String) : encryptSubject h A k n e ≠ .panic s := by
   rw [Obs.encryptSubject_eq' h A k n hi hH]
   cases Obs.encryptRefusal e <;> (intro hh; cases hh)
+
+example (s : String) : encryptSubject toyHash toyAead [1] [2] nd ≠ .panic s :=
+  encryptSubject_never_panics toyHash toyAead [1] [2] nd nd_inv toyHash_valid s
 
 /-- the result: the subject is replaced by the encrypted element carrying the subject's
 encoding, sealed with the subject's digest as additional data; the assertions, the case
@@ -65,10 +77,12 @@ theorem encryptSubject_shape (k n : Bytes) (e r : Env) (hi : Inv h e) (hH : ∀ 
   obtain ⟨rfl, _⟩ := Obs.encryptSubject_ok h A k n hi hH hr
   cases e <;> exact ⟨rfl, rfl, rfl, rfl⟩
 
-/-- C08: encryption keeps the digest -/
-theorem encryptSubject_digest (k n : Bytes) (e r : Env) (hi : Inv h e) (hH : ∀ b, (h.H b).Valid)
+/-- C08: encryption keeps the digest.  No hypothesis at all: `encrypt_subject_opt` ends with
+`assert_eq!(result.digest(), original_digest)` (`encryptSubject_never_panics` is the proof
+that this assertion cannot fire on an envelope satisfying the invariant) -/
+theorem encryptSubject_keeps_digest (k n : Bytes) (e r : Env)
     (hr : encryptSubject h A k n e = .ok r) : r.digest = e.digest :=
-  (encryptSubject_shape h A k n e r hi hH hr).2.2.2
+  Obs.encryptSubject_digest_of_ok h A hr
 
 theorem encryptSubject_subject_encrypted (k n : Bytes) (e r : Env) (hi : Inv h e)
     (hH : ∀ b, (h.H b).Valid) (hr : encryptSubject h A k n e = .ok r) :
@@ -82,6 +96,14 @@ theorem encryptSubject_inv (k n : Bytes) (e r : Env) (hi : Inv h e) (hH : ∀ b,
   obtain ⟨rfl, _⟩ := Obs.encryptSubject_ok h A k n hi hH hr
   exact Obs.encryptSubjectSpec_inv h A k n hi hH
 
+example : ∃ r, encryptSubject toyHash toyAead [1] [2] nd = .ok r ∧ r.assertions = nd.assertions ∧
+    r.digest = nd.digest ∧ r.subject.isEncrypted = true ∧ Inv toyHash r := by
+  obtain ⟨r, hr⟩ := (encryptSubject_ok_iff toyHash toyAead [1] [2] nd nd_inv toyHash_valid).mpr ⟨rfl, rfl⟩
+  exact ⟨r, hr, (encryptSubject_shape _ _ _ _ _ _ nd_inv toyHash_valid hr).2.1,
+    encryptSubject_keeps_digest _ _ _ _ _ _ hr,
+    encryptSubject_subject_encrypted _ _ _ _ _ _ nd_inv toyHash_valid hr,
+    encryptSubject_inv _ _ _ _ _ _ nd_inv toyHash_valid hr⟩
+
 /-- encrypting an encrypted subject again is refused, whatever the key and nonce -/
 theorem encrypt_twice_refused (k n k' n' : Bytes) (e r : Env) (hi : Inv h e)
     (hH : ∀ b, (h.H b).Valid) (hr : encryptSubject h A k n e = .ok r) :
@@ -89,6 +111,11 @@ theorem encrypt_twice_refused (k n k' n' : Bytes) (e r : Env) (hi : Inv h e)
   have hri := encryptSubject_inv h A k n e r hi hH hr
   rw [encryptSubject_err_iff h A k' n' r _ hri hH]
   exact Or.inl ⟨rfl, encryptSubject_subject_encrypted h A k n e r hi hH hr⟩
+
+example : ∃ r, encryptSubject toyHash toyAead [1] [2] nd = .ok r ∧
+    encryptSubject toyHash toyAead [3] [4] r = .err "AlreadyEncrypted" := by
+  obtain ⟨r, hr⟩ := (encryptSubject_ok_iff toyHash toyAead [1] [2] nd nd_inv toyHash_valid).mpr ⟨rfl, rfl⟩
+  exact ⟨r, hr, encrypt_twice_refused _ _ _ _ _ _ _ _ nd_inv toyHash_valid hr⟩
 
 /-! ### the round trip -/
 
@@ -140,6 +167,24 @@ theorem decryptSubject_encryptSubject (L : AeadLaws A) (k n : Bytes) (e r : Env)
       (Obs.optDigest_encryptWithDigest A k n _ hv) hrt]
     simp only [bne_self_eq_false, Bool.false_eq_true, if_false]
 
+/- all hypotheses hold together: a node with assertions (subject a leaf), ... -/
+example : ∃ r, encryptSubject toyHash toyAead [1] [2] nd = .ok r ∧
+    decryptSubject toyHash toyAead [1] r = .ok nd := by
+  obtain ⟨r, hr⟩ := (encryptSubject_ok_iff toyHash toyAead [1] [2] nd nd_inv toyHash_valid).mpr ⟨rfl, rfl⟩
+  exact ⟨r, hr, decryptSubject_encryptSubject _ _ toyAead_laws _ _ _ _ nd_inv toyHash_valid lf_rt hr⟩
+
+/- ... a node whose subject is itself a node, ... -/
+example : ∃ r, encryptSubject toyHash toyAead [1] [2] nd2 = .ok r ∧
+    decryptSubject toyHash toyAead [1] r = .ok nd2 := by
+  obtain ⟨r, hr⟩ := (encryptSubject_ok_iff toyHash toyAead [1] [2] nd2 nd2_inv toyHash_valid).mpr ⟨rfl, rfl⟩
+  exact ⟨r, hr, decryptSubject_encryptSubject _ _ toyAead_laws _ _ _ _ nd2_inv toyHash_valid nd_rt hr⟩
+
+/- ... a bare leaf -/
+example : ∃ r, encryptSubject toyHash toyAead [1] [2] lf = .ok r ∧
+    decryptSubject toyHash toyAead [1] r = .ok lf := by
+  obtain ⟨r, hr⟩ := (encryptSubject_ok_iff toyHash toyAead [1] [2] lf lf_inv toyHash_valid).mpr ⟨rfl, rfl⟩
+  exact ⟨r, hr, decryptSubject_encryptSubject _ _ toyAead_laws _ _ _ _ lf_inv toyHash_valid lf_rt hr⟩
+
 /-! ### wrong key, tampering -/
 
 /-- C08: another key does not decrypt -/
@@ -148,6 +193,11 @@ theorem decrypt_wrong_key (L : AeadLaws A) (k k' n : Bytes) (e r : Env) (hi : In
     decryptSubject h A k' r = .err "dep:Decrypt_failed" := by
   have hs := (encryptSubject_shape h A k n e r hi hH hr).1
   exact Obs.decryptSubject_dec_none h A hs (Obs.decryptMsg_wrong_key L hk n _ _)
+
+example : ∃ r, encryptSubject toyHash toyAead [1] [2] nd = .ok r ∧
+    decryptSubject toyHash toyAead [9] r = .err "dep:Decrypt_failed" := by
+  obtain ⟨r, hr⟩ := (encryptSubject_ok_iff toyHash toyAead [1] [2] nd nd_inv toyHash_valid).mpr ⟨rfl, rfl⟩
+  exact ⟨r, hr, decrypt_wrong_key _ _ toyAead_laws _ _ _ _ _ nd_inv toyHash_valid hr (by decide)⟩
 
 /-- C08: a message that was not sealed under this key with its own nonce and additional
 data (that is what tampering by someone without the key produces) does not decrypt -/
@@ -160,17 +210,35 @@ theorem decrypt_tampered (L : AeadLaws A) (k : Bytes) (r : Env) (m : EncMsg) (d 
   | none => rfl
   | some p => exact absurd (L.dec_only_enc _ _ _ _ _ _ hd) (hforged p)
 
+/- a message with an empty tag was never sealed by the toy AEAD -/
+example : decryptSubject toyHash toyAead [1] (.encrypted ⟨[], [], [], []⟩ ⟨0⟩) =
+    .err "dep:Decrypt_failed" :=
+  decrypt_tampered toyHash toyAead toyAead_laws [1] _ ⟨[], [], [], []⟩ ⟨0⟩ rfl (by
+    intro p hp
+    have := congrArg (fun x => x.2.length) hp
+    simp [toyAead, toyEnc, zeros16] at this)
+
 /-- ... in particular: changing the nonce of a sealed message -/
 theorem decrypt_tampered_nonce (L : AeadLaws A) (k n p a n' : Bytes) (r : Env) (d : Digest)
     (hs : r.subject = .encrypted ⟨(A.enc k n p a).1, n', (A.enc k n p a).2, a⟩ d) (hn : n' ≠ n) :
     decryptSubject h A k r = .err "dep:Decrypt_failed" :=
   Obs.decryptSubject_dec_none h A hs (L.dec_other k n p a k n' a (Or.inr (Or.inl hn)))
 
+example : decryptSubject toyHash toyAead [1]
+    (.encrypted ⟨(toyAead.enc [1] [2] [3] [4]).1, [7], (toyAead.enc [1] [2] [3] [4]).2, [4]⟩ ⟨0⟩) =
+    .err "dep:Decrypt_failed" :=
+  decrypt_tampered_nonce toyHash toyAead toyAead_laws [1] [2] [3] [4] [7] _ ⟨0⟩ rfl (by decide)
+
 /-- ... changing the additional data (the declared digest) of a sealed message -/
 theorem decrypt_tampered_aad (L : AeadLaws A) (k n p a a' : Bytes) (r : Env) (d : Digest)
     (hs : r.subject = .encrypted ⟨(A.enc k n p a).1, n, (A.enc k n p a).2, a'⟩ d) (ha : a' ≠ a) :
     decryptSubject h A k r = .err "dep:Decrypt_failed" :=
   Obs.decryptSubject_dec_none h A hs (L.dec_other k n p a k n a' (Or.inr (Or.inr ha)))
+
+example : decryptSubject toyHash toyAead [1]
+    (.encrypted ⟨(toyAead.enc [1] [2] [3] [4]).1, [2], (toyAead.enc [1] [2] [3] [4]).2, [7]⟩ ⟨0⟩) =
+    .err "dep:Decrypt_failed" :=
+  decrypt_tampered_aad toyHash toyAead toyAead_laws [1] [2] [3] [4] [7] _ ⟨0⟩ rfl (by decide)
 
 /-- ... changing the ciphertext or the tag of a sealed message: decryption fails, unless
 the new pair is itself what the key seals for another plaintext under the same nonce and
@@ -182,6 +250,14 @@ theorem decrypt_tampered_ciphertext_or_tag (L : AeadLaws A) (k n p a c' t' : Byt
   rcases L.dec_tampered k n p a c' t' hne with hnone | ⟨p', hp, _, he⟩
   · exact Or.inl (Obs.decryptSubject_dec_none h A hs hnone)
   · exact Or.inr ⟨p', hp, he⟩
+
+example : decryptSubject toyHash toyAead [1] (.encrypted ⟨[], [2], [], [4]⟩ ⟨0⟩) =
+      .err "dep:Decrypt_failed" ∨
+    ∃ p', p' ≠ [3] ∧ (([] : Bytes), ([] : Bytes)) = toyAead.enc [1] [2] p' [4] :=
+  decrypt_tampered_ciphertext_or_tag toyHash toyAead toyAead_laws [1] [2] [3] [4] [] [] _ ⟨0⟩ rfl (by
+    intro hp
+    have := congrArg (fun x => x.2.length) hp
+    simp [toyAead, toyEnc, zeros16] at this)
 
 /-- every single-field tampering of what `encrypt_subject` produced: with the right key, a
 changed nonce or changed additional data fails; a changed ciphertext or tag fails, unless
@@ -208,6 +284,14 @@ theorem decrypt_encrypted_tampered (L : AeadLaws A) (k n : Bytes) (e r : Env) (h
   · intro r' a' d' hs ha
     exact decrypt_tampered_aad h A L k n (encode e.subject) m.aad a' r' d' hs ha
 
+example : ∃ r, encryptSubject toyHash toyAead [1] [2] nd = .ok r ∧
+    ∀ (r' : Env) (n' : Bytes) (d' : Digest),
+      r'.subject = .encrypted { encryptWithDigest toyAead [1] [2] (encode nd.subject) nd.subject.digest
+        with nonce := n' } d' → n' ≠ [2] →
+      decryptSubject toyHash toyAead [1] r' = .err "dep:Decrypt_failed" := by
+  obtain ⟨r, hr⟩ := (encryptSubject_ok_iff toyHash toyAead [1] [2] nd nd_inv toyHash_valid).mpr ⟨rfl, rfl⟩
+  exact ⟨r, hr, (decrypt_encrypted_tampered _ _ toyAead_laws _ _ _ _ nd_inv toyHash_valid hr).2.2.1⟩
+
 /-! ### misdeclared content -/
 
 /-- C08: the first comparison of `decrypt_subject`: content whose digest is not the one
@@ -221,6 +305,14 @@ theorem decrypt_misdeclared (k : Bytes) (r : Env) (m : EncMsg) (d declared : Dig
   · rw [Obs.decryptSubject_leaf_form h A hd ho hx, if_pos hb]
   · rw [Obs.decryptSubject_node_form h A hd ho hx, if_pos hb]
 
+/- a key holder seals the leaf `"a"` under the declared digest 7 (`encrypt_with_digest` lets
+one do that): refused -/
+example : decryptSubject toyHash toyAead [1]
+    (.encrypted (encryptWithDigest toyAead [1] [2] (encode lf) ⟨7⟩) ⟨7⟩) = .err "InvalidDigest" :=
+  decrypt_misdeclared toyHash toyAead [1] _ _ ⟨7⟩ ⟨7⟩ (encode lf) lf rfl
+    (Obs.decryptMsg_encryptWithDigest toyAead_laws _ _ _ _)
+    (Obs.optDigest_encryptWithDigest _ _ _ _ (by simp [Digest.Valid])) lf_rt (by decide)
+
 /-- C08: the second comparison of `decrypt_subject`: a node whose digest is not the one
 recomputed over the decrypted subject and the assertions is refused -/
 theorem decrypt_misdeclared_node (k : Bytes) (m : EncMsg) (ds d declared : Digest)
@@ -233,6 +325,15 @@ theorem decrypt_misdeclared_node (k : Bytes) (m : EncMsg) (ds d declared : Diges
   rw [Obs.decryptSubject_node_form h A hd ho hx, hb, Obs.newNodeUnchecked_ne h hne]
   simp only [Bool.false_eq_true, if_false, hb2, if_true]
 
+/- the subject is honest, the node digest (9) is not the recomputed one -/
+example : decryptSubject toyHash toyAead [1]
+    (.node (.encrypted (encryptWithDigest toyAead [1] [2] (encode lf) lf.digest) lf.digest) [asr] ⟨9⟩) =
+    .err "InvalidDigest" :=
+  decrypt_misdeclared_node toyHash toyAead [1] _ lf.digest ⟨9⟩ lf.digest [asr] (encode lf) lf
+    (Obs.decryptMsg_encryptWithDigest toyAead_laws _ _ _ _)
+    (Obs.optDigest_encryptWithDigest _ _ _ _ (toyHash_valid _)) lf_rt rfl (by simp)
+    (by rw [Obs.mkNode_asc _ (by simp [AscDigests])]; decide)
+
 /-- whatever decrypts has the digest of what was decrypted -/
 theorem decryptSubject_digest (k : Bytes) (r x : Env) (hw : WF h r)
     (hr : decryptSubject h A k r = .ok x) : x.digest = r.digest := by
@@ -244,39 +345,52 @@ theorem decryptSubject_digest (k : Bytes) (r x : Env) (hw : WF h r)
     exact hrs
   · exact hxd
 
+example : ∃ r x, WF toyHash r ∧ decryptSubject toyHash toyAead [1] r = .ok x ∧ x.digest = r.digest := by
+  obtain ⟨r, hr⟩ := (encryptSubject_ok_iff toyHash toyAead [1] [2] nd nd_inv toyHash_valid).mpr ⟨rfl, rfl⟩
+  have hd := decryptSubject_encryptSubject _ _ toyAead_laws _ _ _ _ nd_inv toyHash_valid lf_rt hr
+  have hw := (encryptSubject_inv _ _ _ _ _ _ nd_inv toyHash_valid hr).1
+  exact ⟨r, nd, hw, hd, decryptSubject_digest _ _ _ _ _ hw hd⟩
+
 /-- `decrypt_subject` of a subject that is not encrypted -/
 theorem decryptSubject_not_encrypted (k : Bytes) (r : Env) (hs : r.subject.isEncrypted = false) :
     decryptSubject h A k r = .err "NotEncrypted" :=
   Obs.decryptSubject_not_encrypted h A hs
+
+example : decryptSubject toyHash toyAead [1] lf = .err "NotEncrypted" :=
+  decryptSubject_not_encrypted _ _ _ _ rfl
 
 /-- no panic: the decoder never panics and a canonical node has an assertion -/
 theorem decryptSubject_no_panic (k : Bytes) (r : Env) (hc : Canon r) (s : String) :
     decryptSubject h A k r ≠ .panic s :=
   Obs.decryptSubject_np h A hc s
 
+example (s : String) : decryptSubject toyHash toyAead [1] nd ≠ .panic s :=
+  decryptSubject_no_panic toyHash toyAead [1] nd nd_inv.2 s
+
 /-! ### the wrapped whole -/
 
 /-- `encrypt` never fails (and never panics): the wrapped envelope is neither encrypted
 nor elided -/
-theorem encryptWhole_ok (k n : Bytes) (e : Env) (hi : Inv h e) (hH : ∀ b, (h.H b).Valid) :
+theorem encryptWhole_succeeds (k n : Bytes) (e : Env) (hi : Inv h e) (hH : ∀ b, (h.H b).Valid) :
     ∃ r, encryptWhole h A k n e = .ok r ∧ encryptSubject h A k n (wrap h e) = .ok r := by
   have hw := Obs.inv_wrap hi
   obtain ⟨r, hr⟩ := (encryptSubject_ok_iff h A k n (wrap h e) hw hH).mpr ⟨rfl, rfl⟩
   exact ⟨r, by unfold encryptWhole; rw [hr], hr⟩
 
-/-- the digest of the encrypted whole is the digest of the wrapped envelope -/
-theorem encryptWhole_digest (k n : Bytes) (e r : Env) (hi : Inv h e) (hH : ∀ b, (h.H b).Valid)
+/-- the digest of the encrypted whole is the digest of the wrapped envelope (no hypothesis) -/
+theorem encryptWhole_keeps_wrapped_digest (k n : Bytes) (e r : Env)
     (hr : encryptWhole h A k n e = .ok r) : r.digest = (wrap h e).digest := by
-  obtain ⟨r', hr', hs⟩ := encryptWhole_ok h A k n e hi hH
-  rw [hr] at hr'
-  cases hr'
-  exact encryptSubject_digest h A k n (wrap h e) r (Obs.inv_wrap hi) hH hs
+  unfold encryptWhole at hr
+  cases hs : encryptSubject h A k n (wrap h e) with
+  | ok r' => rw [hs] at hr; cases hr; exact encryptSubject_keeps_digest h A k n _ _ hs
+  | err x => rw [hs] at hr; cases hr
+  | panic x => rw [hs] at hr; cases hr
 
 /-- C08: `decrypt (encrypt e) = e` -/
 theorem decryptWhole_encryptWhole (L : AeadLaws A) (k n : Bytes) (e r : Env) (hi : Inv h e)
     (hH : ∀ b, (h.H b).Valid) (hrt : RoundTrips h (wrap h e))
     (hr : encryptWhole h A k n e = .ok r) : decryptWhole h A k r = .ok e := by
-  obtain ⟨r', hr', hs⟩ := encryptWhole_ok h A k n e hi hH
+  obtain ⟨r', hr', hs⟩ := encryptWhole_succeeds h A k n e hi hH
   rw [hr] at hr'
   cases hr'
   have hd := decryptSubject_encryptSubject h A L k n (wrap h e) r (Obs.inv_wrap hi) hH hrt hs
@@ -287,11 +401,19 @@ theorem decryptWhole_encryptWhole (L : AeadLaws A) (k n : Bytes) (e r : Env) (hi
 theorem decryptWhole_wrong_key (L : AeadLaws A) (k k' n : Bytes) (e r : Env) (hi : Inv h e)
     (hH : ∀ b, (h.H b).Valid) (hr : encryptWhole h A k n e = .ok r) (hk : k' ≠ k) :
     decryptWhole h A k' r = .err "dep:Decrypt_failed" := by
-  obtain ⟨r', hr', hs⟩ := encryptWhole_ok h A k n e hi hH
+  obtain ⟨r', hr', hs⟩ := encryptWhole_succeeds h A k n e hi hH
   rw [hr] at hr'
   cases hr'
   simp only [decryptWhole, decrypt_wrong_key h A L k k' n (wrap h e) r (Obs.inv_wrap hi) hH hs hk]
   rfl
+
+example : ∃ r, encryptWhole toyHash toyAead [1] [2] lf = .ok r ∧
+    decryptWhole toyHash toyAead [1] r = .ok lf ∧ r.digest = (wrap toyHash lf).digest ∧
+    decryptWhole toyHash toyAead [9] r = .err "dep:Decrypt_failed" := by
+  obtain ⟨r, hr, _⟩ := encryptWhole_succeeds toyHash toyAead [1] [2] lf lf_inv toyHash_valid
+  exact ⟨r, hr, decryptWhole_encryptWhole _ _ toyAead_laws _ _ _ _ lf_inv toyHash_valid wrap_lf_rt hr,
+    encryptWhole_keeps_wrapped_digest _ _ _ _ _ _ hr,
+    decryptWhole_wrong_key _ _ toyAead_laws _ _ _ _ _ lf_inv toyHash_valid hr (by decide)⟩
 
 end
 end EnvVerif
